@@ -508,6 +508,18 @@ fn field_alphabet(m: &BigUint, seed: u64, tag: &str) -> (Vec<BigUint>, Vec<BigUi
     extreme.push(m - &rinv);
     extreme.push((BigUint::one() << 255) % m);
     extreme.push((BigUint::one() << 128) - 1u32);
+    // values a with k*a on and next to a reduction threshold (m, 2m, 3m, 2^256, 2^256+m, 2^256+2m, 2^257) for k = 2, 3:
+    // doubling / tripling / adding equal operands with a single conditional subtraction or a dropped wrap goes wrong just there
+    for t in [m.clone(), m * 2u32, m * 3u32, r256.clone(), &r256 + m, &r256 + m * 2u32, &r256 * 2u32] {
+        for k in [2u32, 3] {
+            let q = &t / k;
+            for v in [&q - 1u32, q.clone(), &q + 1u32] {
+                if &v < m {
+                    extreme.push(v);
+                }
+            }
+        }
+    }
     let mut g = SplitMix::new(seed, tag);
     for _ in 0..4 {
         extreme.push(g.below(m));
@@ -530,7 +542,7 @@ pub fn run(ctx: &Arc<Ctx>) {
     refmodels::selftest::run(&["sm2"]).unwrap_or_else(|e| ctx.machinery_error(format!("reference self-test failed: {}", e)));
     let pr = sm2::params();
     let (p, n) = (pr.p.clone(), pr.n.clone());
-    ctx.set_rule("fields: operands = all 4-limb values with limbs in {0,1,2^32,2^63,2^64-1} below the modulus, values within 4 of it, 2^256-m, m/2, R, R^2, seeded; unary ops on all, binary ops on all x extreme (thorough: all x all); crafted Montgomery products landing on 0, 1, m-1. Raw u256/u512 helpers on all limb patterns. Group: [j]G for j in {1,2,3,5,n-1,n-2,seeded} x Z in {1,2,p-1,seeded,R^-1 (stored as plain 1),R} plus 3 encodings of infinity, all ordered pairs through point_add, triples of different points sharing y (and their negatives) in 3 representations through point_add, all through dbl/neg/affine/validity/SEC1; points with x = 0, with the smallest positive and the largest x (both roots, 6 representations, also reached as 2P + (-P)) through the same battery and small multiples; the point at infinity in 5 Jacobian encodings (t^2 : t^3 : 0) met with finite points and itself; off-curve triples; scalars {0,1,2,15,16,17,n-1, w, n-w, n+w for w<=300, 2^256-1, every v*16^i, every b*256^i, adjacent-byte sums, long runs of one bits, seeded} through g_mul / scalar_mul of 3 bases and of the point at infinity in 3 encodings; all 32x255 table entries; all sequences of <= 2 (thorough 3) scalar multiplications over related bases {B, -B, B re-represented, other point} x 2 scalars on one thread. Oracle: affine big-integer arithmetic.");
+    ctx.set_rule("fields: operands = all 4-limb values with limbs in {0,1,2^32,2^63,2^64-1} below the modulus, values within 4 of it, 2^256-m, m/2, R, R^2, T/k + {-1,0,1} for k in {2,3} and T in {m,2m,3m,2^256,2^256+m,2^256+2m,2^257}, seeded; unary ops on all, binary ops on all x extreme (thorough: all x all); crafted Montgomery products landing on 0, 1, m-1. Raw u256/u512 helpers on all limb patterns. Group: [j]G for j in {1,2,3,5,n-1,n-2,seeded} x Z in {1,2,p-1,seeded,R^-1 (stored as plain 1),R} plus 3 encodings of infinity, all ordered pairs through point_add, triples of different points sharing y (and their negatives) in 3 representations through point_add, all through dbl/neg/affine/validity/SEC1; points with x = 0, with the smallest positive and the largest x (both roots, 6 representations, also reached as 2P + (-P)) through the same battery and small multiples, likewise points with y in {1, 2, R^-1, 2R^-1} (x by cubic root search) and their negatives; the point at infinity in 5 Jacobian encodings (t^2 : t^3 : 0) met with finite points and itself; off-curve triples; scalars {0,1,2,15,16,17,n-1, w, n-w, n+w for w<=300, 2^256-1, every v*16^i, every b*256^i, adjacent-byte sums, long runs of one bits, seeded} through g_mul / scalar_mul of 3 bases and of the point at infinity in 3 encodings; all 32x255 table entries; all sequences of <= 2 (thorough 3) scalar multiplications over related bases {B, -B, B re-represented, other point} x 2 scalars on one thread. Oracle: affine big-integer arithmetic.");
     let mut cases: Vec<Case> = Vec::new();
     let h = |x: &BigUint| hexbig(x);
     // ---- fields
@@ -687,6 +699,19 @@ pub fn run(ctx: &Arc<Ctx>) {
                 }
             }
         }
+        // points with a chosen ordinate (x from the reference's cubic root search): y in {1, 2, R^-1, 2 R^-1} and their negatives
+        let mut ycount = 0;
+        for (yl, yv) in [("y=1", BigUint::one()), ("y=2", BigUint::from(2u32)), ("y=R^-1", rinv_p.clone()), ("y=2R^-1", (&rinv_p * 2u32) % &p)] {
+            for x in sm2::xs_for_y(&yv).iter().take(2) {
+                for yy in [yv.clone(), &p - &yv] {
+                    for l in [BigUint::one(), BigUint::from(2u32), rinv_p.clone()] {
+                        cases.push(Case::UnaryXY { x: h(x), y: h(&yy), l: h(&l), tag: yl.into() });
+                        ycount += 1;
+                    }
+                }
+            }
+        }
+        ctx.cov("points_with_chosen_y", json!(ycount));
         ctx.cov("points_with_extreme_x", json!(count));
     }
     // the Jacobian encodings of the point at infinity, (t^2 : t^3 : 0) for t != 0 — not only the library's own (1 : 1 : 0) —
